@@ -5,7 +5,8 @@ CONSTANTS
   ConnOf <- ConnOfBig
   Items <- ItemsBig
   WaitForConns = TRUE
+  Aging = TRUE
   DrainGracefully = TRUE
 INVARIANTS ResolveLate NoLoss
-PROPERTIES NoAcceptAfter AcceptedCompletes ResolveEventually
+PROPERTIES NoAcceptAfter AcceptedCompletes ResolveEventually EndResolves
 CHECK_DEADLOCK FALSE
